@@ -50,6 +50,39 @@ def plan(tier):
                         continue  # integral cross-unit comparison needs head-room in the (finer) common point unit
                     inst.append({"id": iid, "desc": f"arith {su},{du}:{r} mixed={mixed}", "code": f'vfp9::run_arith<{su}, {du}, {r}, {mixed}>(ID, "arith {su},{du}:{r} mixed={mixed}", {args}, nrandom, seed ^ ID);'})
                     iid += 1
+    # explicit-rep conversions across rep classes (floating source -> integral target of every width, and back) for a few unit pairs
+    cross = [("float", "int64_t"), ("float", "int32_t"), ("double", "int64_t"), ("double", "int32_t"), ("float", "uint64_t"), ("int32_t", "double"), ("int64_t", "float"), ("float", "double"), ("double", "float"),
+             ("int32_t", "int64_t"), ("int64_t", "int32_t")]
+    for (su, ss, so), (du, ds, do) in pairs[: (6 if tier == "quick" else 40)]:
+        scale = ss / ds
+        off = (so - do) / ds
+        if max(abs(scale.numerator), scale.denominator, abs(off.numerator), off.denominator) > 10 ** 6:
+            continue
+        args = f"{scale.numerator}LL, {scale.denominator}LL, {off.numerator}LL, {off.denominator}LL"
+        for r, t in (cross if tier != "quick" else rnd.sample(cross, 6)):
+            if t.startswith("uint") and (off < 0 or scale < 0):
+                continue
+            inst.append({"id": iid, "desc": f"{su}:{r} -> {du}:{t}", "code": f'vfp9::run_convert<{su}, {r}, {du}, {t}, false>(ID, "{su}:{r} -> {du}:{t}", {args}, nrandom, seed ^ ID);'})
+            iid += 1
+    # point +- quantity with different units and reps (incl. unsigned displacement reps narrower than the point's rep)
+    shift_reps = [("double", "uint32_t"), ("uint64_t", "uint32_t"), ("int64_t", "uint32_t"), ("int64_t", "int32_t"), ("int32_t", "int32_t"), ("double", "int32_t"), ("float", "double"), ("uint32_t", "uint32_t"),
+                  ("int64_t", "uint16_t"), ("double", "uint64_t"), ("float", "uint32_t"), ("int32_t", "int16_t"), ("uint64_t", "uint64_t"), ("double", "float")]
+    spairs = [(a, b) for a in units for b in units]
+    rnd.shuffle(spairs)
+    n_shift = 0
+    for (pu, ps, po), (qu, qs, qo) in spairs:
+        k = qs / ps
+        if max(k.numerator, k.denominator) > 1000:
+            continue
+        for r1, r2 in rnd.sample(shift_reps, 3 if tier == "quick" else 6):
+            integral = r1 in ("int32_t", "int64_t", "uint32_t", "uint64_t") or not r1[0] in "fd"
+            if (r1[0] not in "fd" or r2[0] not in "fd") and max(k.numerator, k.denominator) > 100:
+                continue
+            inst.append({"id": iid, "desc": f"shift {pu}:{r1} +- {qu}:{r2}", "code": f'vfp9::run_shift<{pu}, {r1}, {qu}, {r2}>(ID, "shift {pu}:{r1} +- {qu}:{r2}", {k.numerator}LL, {k.denominator}LL, nrandom, seed ^ ID);'})
+            iid += 1
+        n_shift += 1
+        if n_shift >= (14 if tier == "quick" else 120):
+            break
     for i in inst:
         i["code"] = i["code"].replace("ID", str(i["id"]))
     return inst, decls
